@@ -85,6 +85,8 @@ def build(seed, pi, subset):
         "tmpl.zot": "# template\n\n## {{ name }}\n\n" + note_lines + joined,
         "zoq/saved.zoq": "# W #t\n#\n" + note_lines,
         "unrelated.txt": "not a zorg file " + " ".join(els) + "\n",
+        # not z-files either, although '.zo' occurs in their names
+        "other.zo~": page, "notes.zox": page, "deep/inner.zo.bak": page, "deep/.hidden.zo.tmp": page,
         # bytes a line-by-line rewrite would normalise: no final newline, two final
         # newlines, a form feed, a carriage return, a Unicode line separator
         "endings/nonl.zo": ("# no final newline\n\n" + note_lines + joined).rstrip("\n"),
